@@ -7,6 +7,7 @@ import (
 	"crypto/rsa"
 	"crypto/x509"
 	"encoding/base64"
+	"errors"
 	"fmt"
 	"io"
 	"math/rand/v2"
@@ -33,6 +34,8 @@ type SpySigner struct {
 	publics atomic.Uint64
 	// OnPublic, when armed, runs once inside the next Public() call (on the calling goroutine).
 	OnPublic atomic.Pointer[func()]
+	// Fail makes Sign return an error (an HSM / KMS that is temporarily unavailable).
+	Fail atomic.Bool
 }
 
 func (s *SpySigner) Public() crypto.PublicKey {
@@ -50,6 +53,9 @@ func (s *SpySigner) Public() crypto.PublicKey {
 	return s.K.Signer.Public()
 }
 func (s *SpySigner) Sign(r io.Reader, digest []byte, opts crypto.SignerOpts) ([]byte, error) {
+	if s.Fail.Load() {
+		return nil, errors.New("verif: signing device unavailable")
+	}
 	s.Signs.Add(1)
 	return s.K.Signer.Sign(r, digest, opts)
 }
